@@ -136,12 +136,13 @@ class TextGen:
     # ---- C15: doc groups ---------------------------------------------------------------------
     def doc_groups(self, n_groups):
         r = self.r
-        shapes = ["named", "enum-struct-variant", "tuple", "enum-unit", "flatten", "only-flattened-enum"]
+        shapes = ["named", "enum-struct-variant", "tuple", "enum-unit", "flatten", "only-flattened-enum", "internal-newtype-inlined-enum"]
         for gi in range(n_groups):
             shape = shapes[gi % len(shapes)]
             position = r.choice({"named": ["container", "field"], "enum-struct-variant": ["container", "variant", "variant-field"],
                                  "tuple": ["container"], "enum-unit": ["container", "variant"], "flatten": ["flattened-field", "field"],
-                                 "only-flattened-enum": ["flattened-enum-variant-field", "flattened-enum-variant"]}[shape])
+                                 "only-flattened-enum": ["flattened-enum-variant-field", "flattened-enum-variant"],
+                                 "internal-newtype-inlined-enum": ["inlined-enum-variant-field", "inlined-enum-variant-field", "inlined-enum-variant"]}[shape])
             texts = [None, r.choice(DOC_TEXTS), r.choice(DOC_TEXTS)]
             if shape == "only-flattened-enum" and r.random() < 0.5:
                 # the embedded comment must not disturb what is done to the surrounding type text
@@ -152,7 +153,7 @@ class TextGen:
             # other attributes on the documented node (the same for every member of the group)
             fctx = r.choice([None, None, None, '#[ts(type = "string")]', '#[ts(as = "String")]', "#[ts(inline)]", "#[ts(optional)]",
                              '#[ts(rename = "alpha")]', "#[serde(default)]"])
-            if shape in ("tuple", "enum-unit", "only-flattened-enum"):
+            if shape in ("tuple", "enum-unit", "only-flattened-enum", "internal-newtype-inlined-enum"):
                 fctx = None
             cctx = r.choice([None, None, None, '#[ts(rename_all = "lowercase")]', "#[ts(optional_fields)]", '#[ts(tag = "t")]']) if shape == "named" else None
             alpha_ty = Ty("opt", args=[prim("i32")]) if fctx == "#[ts(optional)]" else prim("i32")
@@ -174,6 +175,16 @@ class TextGen:
                     it = self.mk("tuple", docs=cdocs, fields=[Field(None, prim("i32")), Field(None, prim("bool"))])
                 elif shape == "enum-unit":
                     it = self.mk("enum", docs=cdocs, variants=[Variant("First", "unit", docs=vdocs), Variant("Second", "unit")])
+                elif shape == "internal-newtype-inlined-enum":
+                    # the documented enum is inlined as the payload of a newtype variant of an internally tagged enum: a union,
+                    # which the tag object is intersected with; the comments inside are no part of that decision
+                    inner = self.mk("enum", variants=[
+                        Variant("First", "struct", [Field("alpha", prim("i32"), docs=docs if position.endswith("variant-field") else [])],
+                                docs=docs if position.endswith("-variant") else []),
+                        Variant("Second", "struct", [Field("beta", prim("bool"))])])
+                    self.add(inner, position="helper", cls="helper", text="")
+                    it = self.mk("enum", tag="kind", variants=[
+                        Variant("Wrapped", "newtype", [Field(None, Ty("user", item=inner), inline=True)]), Variant("Other", "unit")])
                 elif shape == "only-flattened-enum":
                     # the documented enum is the only (flattened) member of the examined struct: its text, comments included,
                     # is what the struct's declaration is made of
